@@ -15,7 +15,12 @@ RULE = (
     "incl. strided slices, through let-valued indices and macro parameters; loops, nested blocks, busy "
     "prepare/measure gates, idle gates): get_used_qubit_indices(circuit) must equal the reference set exactly "
     "(both inclusions), and so must get_used_qubit_indices(stmt) for every statement of the main body AT ANY DEPTH "
-    "(blocks, loop bodies, subcircuit bodies) that is free of busy gates.  "
+    "(blocks, loop bodies, subcircuit bodies) that is free of busy gates (a statement that reaches a busy gate may be "
+    "refused when analysed alone, but an answer must be all qubits of ITS circuit - another circuit of another size "
+    "is analysed in between).  Part several-registers: builder-made circuits with 2-3 fundamental registers of "
+    "different sizes (the text grammar takes one), gates on drawn qubits, optionally a busy gate: the answer is per "
+    "register, for a busy gate every index of every register within its own size.  The overlap programs also place "
+    "prepare_all / measure_all inside a branch of a two-branch parallel block (busy wherever they stand).  "
     "parallel-overlap: an executable program in which, with probability 1/2, one overlap is injected into a "
     "parallel block (a gate on a qubit another branch uses, written through a randomly chosen name of that qubit - "
     "register index, alias element, single-qubit alias - or an idle gate on it, which must NOT count): "
@@ -44,6 +49,15 @@ def _names_of_qubit(prog, ref, k):
 def _used_of_stmt(ref, stmt, n):
     tree = refexec.expand(Ref({**ref.prog, "body": [stmt]}, ref.env))
     return refexec.used(tree, n, sub_busy=False)
+
+
+_DECOYS = {}
+
+
+def _decoy(size):
+    if size not in _DECOYS:
+        _DECOYS[size] = parse(f"register zz_other[{size}]\nprepare_all\nX zz_other[0]\nmeasure_all\n", inject_pulses=gates.make_gates(0))
+    return _DECOYS[size]
 
 
 def used_exact(case):
@@ -88,6 +102,9 @@ def used_exact(case):
             elif s_model[0] == "sub":
                 yield from pairs(s_model[2], s_obj.statements)
 
+    # the analysis of ANOTHER circuit (a register of another size) in between: what "all qubits"
+    # means for the statements below is this circuit's business, not the last caller's
+    st_, _d = guard(get_used_qubit_indices, _decoy(n + 2), what="get_used_qubit_indices(another circuit)")
     for s_model, s_obj in pairs(prog["body"], c.body.statements):
         busy = any(x[0] == "g" and (x[1] in ("prepare_all", "measure_all") or x[1].startswith("BSY")) for x in walk([s_model])) or any(
             x[0] == "g" and x[1] in mn and _macro_busy(prog, x[1]) for x in walk([s_model])
@@ -366,6 +383,23 @@ def overlap_cases():
                         gs.append(["g", "U2", [ch.pick(_names_of_qubit(prog, ref0, mine[0])), ch.pick(_names_of_qubit(prog, ref0, mine[1]))]])
                     branches.append(gs[0] if len(gs) == 1 and ch.bool() else ["seq", gs])
                 prog["body"].append(["sub", None, [["par", branches]]])
+            elif n0 >= 2 and ch.int(0, 3) == 0:
+                # prepare_all / measure_all are busy gates wherever they stand: inside a branch of
+                # a parallel block they collide with every other branch that uses a qubit
+                qa, qb = ch.perm(n0)[:2]
+                ga = ["g", "X", [ch.pick(_names_of_qubit(prog, ref0, qa))]]
+                gb = ["g", ch.pick(["X", "U1"]), [ch.pick(_names_of_qubit(prog, ref0, qb))]]
+                P, M = ["g", "prepare_all", []], ["g", "measure_all", []]
+                form = ch.int(0, 3)
+                if form == 0:
+                    extra = [["par", [["seq", [P, ga]], gb]], M]
+                elif form == 1:
+                    extra = [P, ["par", [gb, ["seq", [ga, M]]]]]
+                elif form == 2:
+                    extra = [["par", [P, gb]], M]
+                else:
+                    extra = [P, ga, ["par", [["seq", [M, P]], gb]], M]
+                prog["body"].extend(extra)
         except Invalid:
             pass
         blocks = _par_blocks(prog["body"], [])
@@ -438,6 +472,8 @@ def overlap(case):
         st_, res = guard(run_jaqal_circuit, c, what="run_jaqal_circuit")
     inj = case.get("inject")
     classes = ["ref:overlap" if overlapping else "ref:disjoint"]
+    if any(x[0] == "par" and len(x[1]) >= 2 and any(y[0] == "g" and y[1] in ("prepare_all", "measure_all") for y in walk([x])) for x in walk(prog["body"])):
+        classes.append("prepare-or-measure-inside-a-parallel-branch")
     if inj:
         classes.append("injected:" + ("idle" if inj["gate"].startswith("I_") else "active"))
     if overlapping:
@@ -470,8 +506,64 @@ def overlap(case):
     return {"nontrivial": two_names or depth2 or bool(prog["macros"]), "classes": classes + (["overlap-via-alias"] if two_names else []), "key": text, "sample": {"text": text, "injected": inj, "reference_overlap": overlapping}}
 
 
+def _two_reg_gen(ch):
+    sizes = [ch.int(1, 6) for _ in range(ch.int(2, 3))]
+    names = ch.sample(["a", "b", "r", "q"], len(sizes))
+    gates_ = []
+    for _ in range(ch.int(0, 5)):
+        j = ch.int(0, len(sizes) - 1)
+        gates_.append([names[j], ch.int(0, sizes[j] - 1)])
+    return {"regs": [[n_, z] for n_, z in zip(names, sizes)], "gates": gates_, "busy": ch.pick([None, None, "prepare_all", "measure_all", "GlobalWait"]), "alias": ch.bool(), "nest": ch.int(0, 2)}
+
+
+def two_registers(case):
+    """A circuit made with the builder may hold several fundamental registers (the text grammar
+    takes one): the analysis answers per register - exactly the indices used, and for a busy gate
+    every index of EVERY register, each within its own size."""
+    from jaqalpaq.core.circuitbuilder import CircuitBuilder
+    from jaqalpaq.core import GateDefinition, Parameter, ParamType
+    from jaqalpaq.core.gatedef import BusyGateDefinition
+    from jaqalpaq.core.algorithm import get_used_qubit_indices
+
+    nat = {
+        "prepare_all": BusyGateDefinition("prepare_all"),
+        "measure_all": BusyGateDefinition("measure_all"),
+        "GlobalWait": BusyGateDefinition("GlobalWait", [Parameter("t", ParamType.FLOAT)]),
+        "X": GateDefinition("X", [Parameter("q", ParamType.QUBIT)]),
+    }
+    b = CircuitBuilder(native_gates=nat)
+    robj = {}
+    for n_, z in case["regs"]:
+        robj[n_] = b.register(n_, z)
+    alias_of = {}
+    if case["alias"]:
+        n0, z0 = case["regs"][-1]
+        b.map("zz_al", robj[n0], slice(0, z0, 1))
+        alias_of[n0] = "zz_al"
+    holder = b.block() if case["nest"] else b
+    want = {}
+    for i, (n_, k) in enumerate(case["gates"]):
+        holder.gate("X", ("array_item", alias_of.get(n_, n_) if i % 2 else n_, k))
+        want.setdefault(n_, set()).add(k)
+    if case["busy"]:
+        holder.gate(case["busy"], *([0.5] if case["busy"] == "GlobalWait" else []))
+        want = {n_: set(range(z)) for n_, z in case["regs"]}
+    st_, c = guard(b.build, what="CircuitBuilder.build")
+    if st_ == "err":
+        raise Skip()
+    st_, u = guard(get_used_qubit_indices, c, what="get_used_qubit_indices(circuit with several registers)")
+    desc = f"registers {case['regs']}, X on {case['gates']}, busy gate {case['busy']}, alias of the last register {case['alias']}"
+    if st_ == "err":
+        raise Violation("used-set", f"{u}\n{desc}", where="several-registers")
+    got = {k: set(v) for k, v in dict(u).items() if v}
+    if got != {k: v for k, v in want.items() if v}:
+        raise Violation("used-set", f"got {got}, expected {want}\n{desc}", where="several-registers")
+    return {"nontrivial": bool(case["busy"]) and len({z for _n, z in case["regs"]}) >= 2, "classes": ["registers:%d" % len(case["regs"]), "busy:%s" % bool(case["busy"])], "key": repr(case), "sample": case}
+
+
 def parts():
     return [
+        Part("several-registers", gen.cases(_two_reg_gen), two_registers, quick=600, thorough=8000, min_nontrivial=0.1),
         Part("used-exact", used_cases(), used_exact, quick=4000, thorough=80000, min_nontrivial=0.2),
         Part("parallel-overlap", overlap_cases(), overlap, quick=3000, thorough=60000, min_nontrivial=0.2),
     ]
